@@ -91,6 +91,7 @@ BOXES = {
     "pinf_b": ([None, 0.0], [None, 5.0]),
     "halfinf": ([0.0, -1.0], [None, 1.0]),
 }
+OTHER_BOX = {"sym": "odd", "asym": "perdim", "perdim": "asym", "odd": "sym"}  # same shape, other bounds
 FINITE_BOXES = ["sym", "asym", "perdim", "perdim3", "odd", "dim1"]
 INF_BOXES = ["pinf_a", "pinf_b", "halfinf"]
 FORCES_DISC = ["none", "ties", "desc", "asc", "ext", "neg_ext", "pos_ext", "low", "scale"]
@@ -121,6 +122,11 @@ def cases(tier, seed):
     def add(**kw):
         kw["seed"] = int(rng.integers(1 << 30))
         kw["depth"] = depth
+        a = kw.get("act", {})
+        if kw.get("algo") in MA_DET + ["IPPO"] and a.get("type") == "box" and a.get("name") in OTHER_BOX and len(out) % 2:
+            # the agents of the second policy group ("other_0") act in ANOTHER box of the same shape: bounds must be
+            # looked up per agent, not per group index / first agent
+            kw["act"] = dict(a, other=OTHER_BOX[a["name"]])
         out.append(kw)
 
     for rep in range(reps):
@@ -678,6 +684,8 @@ def _build_multi(case):
     cls = zoo.algo_cls(case["algo"])
     osp = [_obs_space(case["obs"]) for _ in AGENTS]
     asp = [_space(case["act"]) for _ in AGENTS]
+    if case["act"].get("other"):
+        asp = [_space(dict(case["act"], name=case["act"]["other"])) if a.startswith("other") else sp for a, sp in zip(AGENTS, asp)]
     kw = {}
     if case["algo"] in MA_DET:
         kw.update(O_U_noise=bool(case["ou"]), expl_noise=float(case["expl"]), vect_noise_dim=max(1, int(case["vect"])))
